@@ -50,6 +50,11 @@ CHECKS = {
    text="Long clients stream a periodic pattern through a 4 GiB aliased window under seeded segmentations (segments up to 2^32-1 bytes, small unaligned bursts around 2^29, 2^32, 2^32+2^29) interleaved with short clients on every (algorithm, family) pair; digest compared with a streaming reference, total_length with the sum of segments.",
    note="Quick: all 28 pairs cross 2^29, two seed-chosen pairs cross 2^32; thorough: all pairs cross 2^32+2^29. One reference digest per (algorithm, length) per process.",
    tech=TECH + ": HashMgrSim long-stream workload, reference-model oracle"),
+ "C18": dict(cat="exploration", sec="5 SharedStateSim",
+   text="Three deterministic single-thread mechanisms: (a) the archive's entire writable static storage (one page-aligned linked section) is write-protected before or after binding while hash-manager, streaming and one-shot workloads and real first calls run; only stores into <entry>_dispatched slots / self_test_status are admitted and logged by writer, any other store is reported with its symbol; (b) 2-6 coroutine tasks race first calls of the same or different dispatched entry points at the simulated cpuid/xgetbv yield points: results, final bindings and every intermediate slot value are checked; (c) two tasks with separate environments run workloads interleaved at call granularity and must reproduce their solo observable histories.",
+   note="True parallel preemption inside a kernel is not simulated; the argument is that code which never writes static storage after binding has only caller-owned objects, its own stack and constants to interfere through. std build only (the self-test verdict is C17's).",
+   tech=TECH + ": SharedStateSim (frozen statics fault injection, coroutine first-call races, interleaved replay vs solo)"),
+
  "C19": dict(cat="exploration", sec="5 cross-cutting monitors",
    text="Every library call of the mixed batch (hash managers, streaming objects, one-shot AES, all dispatch resolvers) runs through a trampoline that plants sentinels in rbx, rbp, r12-r15, poisons everything else and compares rsp, the sentinels, DF, MXCSR control bits, x87 CW and 64 canary bytes above the callee's frame afterwards; resolvers additionally must preserve every argument, vector and mask register.",
    note="Exit paths are reached through histories and length classes, not enumerated from source; FIPS-build-only entry points are exercised by C13/C17 without this monitor.",
